@@ -307,6 +307,9 @@ impl Property for C07 {
     fn marks(&self) -> bool {
         true
     }
+    fn fuzz(&self) -> Option<crate::FuzzSpec> {
+        Some(crate::FuzzSpec { label: "c07-ws", max_len: 700, runs: 600 })
+    }
     fn run(&self, ctx: &mut Ctx) {
         let corpus_files = corpus();
         let cases = ctx.tier.pick(2_500, 40_000);
